@@ -167,6 +167,13 @@ def grep_forbidden():
 
 def build_model():
     """Extract the model from the checked .vo files and compile the OCaml driver."""
+    # the modules Extract.v imports must be compiled (a model file no property file depends on would otherwise be
+    # missing in a tree where only the property targets were made)
+    mods = re.search(r"From K Require Import ([^.]*)\.", open(os.path.join(EXTRACT, "Extract.v")).read())
+    if mods:
+        okm, outm = coq_make([m + ".vo" for m in mods.group(1).split()])
+        if not okm:
+            return None, "model files do not compile:\n" + outm[-3000:]
     with Lock("coq"):
         ok, out = True, ""
         r = run(["timeout", "600", "coqc", "-Q", "../coq", "K", "Extract.v"], cwd=EXTRACT)
